@@ -225,6 +225,7 @@ theorem apply_ok (eng : Engine) (c : Chart) (s : Session) (op : Op) (h : EOk c s
   | receive ev => exact h
   | cancel => exact h
   | getState => exact h
+  | inject ev => exact h
   | reset => exact h0
   | destroy => exact h0
 
